@@ -1089,10 +1089,23 @@ where
         ) -> bool,
     ) -> Result<bool> {
         let parser = self.source.parser();
+        // nesting level: tokens inside sequence items
+        // (such as the pixel data of an icon image)
+        // do not belong to the root data set
+        let mut depth = 0u32;
         while let Some(token) = parser.advance() {
             let token = token.context(ReadTokenSnafu)?;
-            if pred(&token) {
+            if depth == 0 && pred(&token) {
                 return Ok(true);
+            }
+            match &token {
+                LazyDataToken::SequenceStart { .. } | LazyDataToken::PixelSequenceStart => {
+                    depth += 1;
+                }
+                LazyDataToken::SequenceEnd => {
+                    depth = depth.saturating_sub(1);
+                }
+                _ => {}
             }
             // skip through values if necessary
             token.skip().context(ReadItemSnafu)?;
